@@ -14,6 +14,7 @@ LEVELS = {
  "C09": ("exploration", "4.C09", "Every public getter (both bias flags, alpha in {0,.01,.05,.5,1}) after operations of thousands of generated observation sequences (degenerate, ill-conditioned, large n, resets, rejected inputs) compared with exact rational arithmetic under conditioning-aware tolerances (largest observed error/tolerance ratio is reported); NaN structure and totality judged always. Held = no getter raised or left its tolerance.", "Finite observations with |x| in {0} or [1e-6,1e12]; statistics whose tolerance exceeds 1e-3 are judged for totality only; SAS/Excel form of the unbiased skewness."),
  "C10": ("exploration", "4.C10", "All public getters after every operation of thousands of generated (weight, value) and (time, value) histories (zero and all-zero weights, repeated timestamps, closing, use after closing, re-initialisation, rejected inputs) compared with exact rational weighted moments and the exact integral of the step function; total weight pinned to the span through weighted_sum/weighted_mean. Held = no getter raised or left its tolerance, no ignored/rejected input changed a getter.", "Finite inputs in the stated envelope; undefined statistics at total weight 0 judged for totality only; n/min/max of the timestamp variant not judged."),
  "C13": ("exploration", "4.C13", "Generated stream/seed-table configurations are evaluated in 5 child interpreters with different PYTHONHASHSEED values; seed and first draws per stream must agree across interpreters, across listing orders, with the stream updated alone, and after unrelated prior use; table semantics and the fallback are checked per stream; invalid replication numbers must be refused without touching the stream (twin comparison). Held = all observations agreed.", "Differences that only show with hash seeds not sampled are not seen; bool replication numbers not judged."),
+ "C14": ("exploration", "4.C14", "Thousands of (class, parameter) cells over all 19 distributions: twin / interleaved / re-pointed instances compared draw by draw on instrumented streams (old stream frozen and watched for 200 draws), every draw support-checked, and extreme uniforms (0.0, subnormal, 2^-53, 0.5, 1-2^-53; single and adjacent pairs) spliced into every position the first draws consume; out-of-domain parameters must be refused, in-domain ones (incl. closed end points) must construct and draw. Held = nothing raised / differed / left the support, apart from the listed known findings.", "Numeric envelope stated in the evidence assumptions; +inf satisfies the statement's inequalities literally and is counted, not judged."),
 }
 
 def main():
